@@ -367,6 +367,7 @@ func DistributeOrderAmountToOrders(orders []Order, amt sdkmath.Int, price sdkmat
 		matchedAmtByOrder[order] = prevMatchedAmt.Add(matchedAmt)
 		remainingAmt = remainingAmt.Sub(matchedAmt)
 	}
+	verifNoteUndistributed(remainingAmt)
 
 	var matchedOrders, notMatchedOrders []Order
 	for _, order := range orders {
